@@ -156,7 +156,9 @@ class Run:
             return
         os.makedirs(os.path.join(VERIF, "facts", "actual"), exist_ok=True)
         rc, out, s2 = sh([os.path.join(BUILD, "extract_" + self.pid), "-repo", REPO, "-lean", os.path.join(LEAN, "WmModel", "Gen"),
-                          "-facts", os.path.join(VERIF, "facts", "actual"), "-only", self.pid])
+                          "-facts", os.path.join(VERIF, "facts", "actual"),
+                          # `extract_also`: generated bodies of other properties that this property's theorems are built on
+                          "-only", ",".join([self.pid] + list(self.P.get("extract_also", [])))])
         self.step("extract facts + generated Lean", rc == 0, s + s2, out)
         exp_path = os.path.join(VERIF, "facts", "expected", self.pid + ".json")
         act_path = os.path.join(VERIF, "facts", "actual", self.pid + ".json")
